@@ -247,13 +247,39 @@ func (ex *Exec) runGoroutine(g *Goroutine) {
 		if ex.TraceW != nil {
 			fmt.Fprintf(ex.TraceW, "g%d %s: %s\n", g.id, fr.fn.Name(), instrString(instr))
 		}
-		yield := ex.visit(g, fr, instr)
+		yield := ex.visitRetry(g, fr, instr)
 		if g.status != gReady {
 			return
 		}
 		if yield {
 			return
 		}
+	}
+}
+
+// visitRetry runs one instruction; if it needs a symbolic index to be
+// concrete (array of pointers/structs), the index is enumerated over its
+// feasible values (one path each) and the instruction is retried.
+func (ex *Exec) visitRetry(g *Goroutine, fr *Frame, instr ssa.Instruction) (yield bool) {
+	for tries := 0; ; tries++ {
+		var need *Term
+		func() {
+			defer func() {
+				if r := recover(); r != nil {
+					if nc, ok := r.(needConcretize); ok && tries < 8 {
+						need = nc.t
+						return
+					}
+					panic(r)
+				}
+			}()
+			yield = ex.visit(g, fr, instr)
+		}()
+		if need == nil {
+			return yield
+		}
+		v := ex.concretize(need, "index")
+		ex.concrete[need.ID] = v
 	}
 }
 
@@ -575,7 +601,7 @@ func (ex *Exec) fieldAddr(g *Goroutine, fr *Frame, p Ptr, field int, pos token.P
 		return Ptr{Slot: &s[field]}
 	}
 	if p.Arr != nil && p.Arr.isDense() {
-		if k, ok := constInt(p.Idx); ok {
+		if k, ok := ex.constOf(p.Idx); ok {
 			s := p.Arr.Dense[k].(Struct)
 			return Ptr{Slot: &s[field]}
 		}
@@ -635,7 +661,7 @@ func (s Slice) capOr0(ex *Exec) *Term {
 
 func (ex *Exec) elemPtr(a *ArrObj, idx *Term) Ptr {
 	if a.isDense() {
-		if k, ok := constInt(idx); ok && k >= 0 && int(k) < len(a.Dense) {
+		if k, ok := ex.constOf(idx); ok && k >= 0 && int(k) < len(a.Dense) {
 			return Ptr{Slot: &a.Dense[k]}
 		}
 	}
